@@ -987,3 +987,59 @@ def deps_kind_templates(crate):
         if variant:
             out["Dependency::" + variant] = txt
     return b, out
+
+
+# ------------------------------------------------------------------ `[#(#xs),*].join(..)` with an empty xs
+
+def empty_repetition_rule(crate, prop, rule="C16.R9"):
+    """`[#(#xs),*].join(..)` expands to `[].join(..)` when xs is empty: rustc cannot infer the element type (E0282) and the
+    derive's output does not compile.  Either the element type is spelled (`<[String]>::join(&[..], ..)`) or the
+    repetition is only reached when xs is known to be non-empty."""
+    from rules.export_rules import _bool_switch
+    r = Result(rule, "an array or vec literal built from a `#(#xs),*` repetition whose element type is left to inference is only emitted where xs is known to be non-empty: the template is dominated by the non-empty edge of an is_empty() / peek() / len() test on the list the repetition iterates, or on a list that one was computed from")
+    n = 0
+    for ib, tpls, keep in Q.function_templates(crate, ""):
+        for t in keep:
+            fl = [x for x in t.flat() if isinstance(x, str)]
+            for i in range(len(fl) - 5):
+                # a bracket group holding nothing but one repeated interpolation and its separator (the loop quote! expands
+                # `#(#x),*` into reads `, # x` in the MIR), followed by a method call
+                if fl[i] == "[" and ((fl[i + 1:i + 4] == [",", "#", fl[i + 3]] and fl[i + 4:i + 6] == ["]", "."]) or (fl[i + 1] == "#" and fl[i + 3:i + 6] == [",", "]", "."])):
+                    if i >= 1 and fl[i - 1] == "&":
+                        continue      # `&[..]` handed to a function with a typed parameter
+                    x = fl[i + 3] if fl[i + 1] == "," else fl[i + 2]
+                    n += 1
+                    loc = next((l for (nm, l, _) in t.interps if nm == x), None)
+                    # the list behind the repetition, and everything it was computed from
+                    related = set()
+                    if loc is not None:
+                        vis = set()
+                        for _, c0 in M.deep_slice(ib, loc)[0]:
+                            for a in c0["args"]:
+                                if op_place(a) is not None:
+                                    related.add(panics.operand_origin_ex(ib, a)[1])
+                                    related.add(op_place(a)["l"])
+                    guard = None
+                    for blk, c in ib.calls():
+                        if ib.is_cleanup(blk) or not c["args"] or op_place(c["args"][0]) is None:
+                            continue
+                        root = panics.operand_origin_ex(ib, c["args"][0])[1]
+                        if root not in related and op_place(c["args"][0])["l"] not in related:
+                            continue
+                        sw = _bool_switch(ib, blk)
+                        if not sw:
+                            continue
+                        if fn_matches(c, r"::is_empty$") and sw[0] is not None and ib.dominates(sw[0], t.block):
+                            guard = "behind the false edge of is_empty()"
+                        if fn_matches(c, r"Option::<T>::is_some$") and sw[1] is not None and ib.dominates(sw[1], t.block):
+                            guard = "behind the true edge of peek().is_some()"
+                        if fn_matches(c, r"Option::<T>::is_none$") and sw[0] is not None and ib.dominates(sw[0], t.block):
+                            guard = "behind the false edge of peek().is_none()"
+                    r.inst(fn=ib.path, repetition="#" + x, where="%s:%s" % (t.file, t.line), guard=guard)
+                    if guard is None:
+                        r.fail(prop, "untyped-empty-repetition %s #%s" % (ib.path, x),
+                               "`[#(#%s),*].%s(..)` is emitted although %s may be empty (every field or variant skipped): the expansion contains `[].%s(..)` and fails with E0282 `type annotations needed`" % (x, fl[i + 6] if i + 6 < len(fl) else "..", x, fl[i + 6] if i + 6 < len(fl) else ".."),
+                               t.file, t.line)
+    r.stats["untyped_repetitions"] = n
+    r.floor = 3
+    return r
